@@ -169,3 +169,24 @@ def tokens (e : Nat) (k : List Nat) : List Nat → List Nat → List Gen
   | pre, r :: rs => ⟨e, k, pre ++ [r]⟩ :: tokens e k (pre ++ [r]) rs
 
 end NiftyVerif.Rng
+
+namespace NiftyVerif.Rng
+
+/-- JAX side, `OptimizeVI.update`: `key, sk = random.split(key, 2)` once per update, before and independently of the
+    sampling decision; `split` is uninterpreted -/
+def keyAt {Key} (split : Key → Key × Key) (k0 : Key) : Nat → Key
+  | 0 => k0
+  | i + 1 => (split (keyAt split k0 i)).1
+
+/-- one update: returns (new state key, the key handed to draw_samples); `mode` (sample mode of this iteration) is
+    deliberately not used -/
+def updateKey {Key Mode} (split : Key → Key × Key) (key : Key) (_mode : Mode) : Key × Key := split key
+
+def runKeys {Key Mode} (split : Key → Key × Key) : Key → List Mode → Key × List Key
+  | k, [] => (k, [])
+  | k, m :: ms =>
+    let r := updateKey split k m
+    let rest := runKeys split r.1 ms
+    (rest.1, r.2 :: rest.2)
+
+end NiftyVerif.Rng
